@@ -18,7 +18,16 @@ func c16Doc() *spec.Swagger {
 		doc.SecurityDefinitions = spec.SecurityDefinitions{"k": &spec.SecurityScheme{}}
 	}
 	if doc.Paths != nil {
-		for _, pi := range doc.Paths.Paths {
+		for k, pi := range doc.Paths.Paths {
+			if vrfParam("sparecap", 0) != 0 && pi.Parameters != nil {
+				// a decoder hands out slices with spare capacity (3 elements: capacity 4): same content, room for more
+				q := make([]spec.Parameter, cfg.K+1)
+				for i := range pi.Parameters {
+					q[i] = pi.Parameters[i]
+				}
+				pi.Parameters = q[:len(pi.Parameters)]
+				doc.Paths.Paths[k] = pi
+			}
 			if pi.Get != nil {
 				pi.Get.ID = vrfStr("get.id", 1)
 				pi.Get.Security = c14Security("get.security")
